@@ -2,6 +2,8 @@ use std::ops::{Deref, DerefMut};
 
 use celestia_proto::celestia::core::v1::proof::NmtProof as RawNmtProof;
 use celestia_proto::proof::pb::Proof as RawProof;
+use nmt_rs::NamespaceId;
+use nmt_rs::simple_merkle::error::RangeProofError;
 use nmt_rs::simple_merkle::proof::Proof as NmtProof;
 use serde::{Deserialize, Serialize};
 use tendermint_proto::Protobuf;
@@ -95,6 +97,106 @@ impl NamespaceProof {
             NmtNamespaceProof::AbsenceProof { ignore_max_ns, .. }
             | NmtNamespaceProof::PresenceProof { ignore_max_ns, .. } => *ignore_max_ns,
         }
+    }
+
+    /// Verify that the provided *raw* leaves are a complete namespace. This may be a proof of
+    /// presence or absence.
+    ///
+    /// It has the same semantics as [`verify_complete_namespace`] from [`nmt_rs`], except that
+    /// a proof that doesn't have a shape of a valid range proof is rejected with an error
+    /// upfront, because [`nmt_rs`] panics on some of those.
+    ///
+    /// [`verify_complete_namespace`]: NmtNamespaceProof::verify_complete_namespace
+    pub fn verify_complete_namespace(
+        &self,
+        root: &NamespacedHash,
+        raw_leaves: &[impl AsRef<[u8]>],
+        namespace: NamespaceId<NS_SIZE>,
+    ) -> Result<(), RangeProofError> {
+        match self.leaf() {
+            // In absence proof the range is occupied by a single leaf of a different namespace.
+            Some(leaf) => self.validate_structure(1, leaf.min_namespace(), leaf.max_namespace()),
+            None => self.validate_structure(raw_leaves.len(), namespace, namespace),
+        }?;
+
+        self.0
+            .verify_complete_namespace(root, raw_leaves, namespace)
+    }
+
+    /// Verify that the provided *raw* leaves are present under the `root` and that
+    /// they form a contiguous subset of some namespace.
+    ///
+    /// It has the same semantics as [`verify_range`] from [`nmt_rs`], except that
+    /// a proof that doesn't have a shape of a valid range proof is rejected with an error
+    /// upfront, because [`nmt_rs`] panics on some of those.
+    ///
+    /// [`verify_range`]: NmtNamespaceProof::verify_range
+    pub fn verify_range(
+        &self,
+        root: &NamespacedHash,
+        raw_leaves: &[impl AsRef<[u8]>],
+        leaf_namespace: NamespaceId<NS_SIZE>,
+    ) -> Result<(), RangeProofError> {
+        self.validate_structure(raw_leaves.len(), leaf_namespace, leaf_namespace)?;
+
+        self.0.verify_range(root, raw_leaves, leaf_namespace)
+    }
+
+    /// Check the invariants [`nmt_rs`] relies on (and panics if they don't hold) when it
+    /// recomputes the root out of the proof and the leaves:
+    ///
+    ///  - There is a sibling for each subtree on the left side of the proven range. The amount
+    ///    of those is known upfront, it's the amount of ones in binary representation of the
+    ///    index of the first leaf.
+    ///  - Nodes of the tree are ordered by namespace. The siblings are provided in the in-order
+    ///    traversal, thus the left siblings, then the proven leaves, then the right siblings,
+    ///    must cover valid (`min <= max`) and non overlapping (`previous max <= next min`)
+    ///    namespace ranges. This holds for every honest proof also if the max namespace is
+    ///    ignored, as then a node may only report lower max namespace than it really has.
+    fn validate_structure(
+        &self,
+        leaves: usize,
+        leaves_min_ns: NamespaceId<NS_SIZE>,
+        leaves_max_ns: NamespaceId<NS_SIZE>,
+    ) -> Result<(), RangeProofError> {
+        let siblings = self.siblings();
+        let left_siblings = self.start_idx().count_ones() as usize;
+
+        if siblings.len() < left_siblings {
+            return Err(RangeProofError::MissingProofNode);
+        }
+
+        // Indexes of the leaves must fit in u32, otherwise the index arithmetic
+        // in `nmt_rs` would overflow usize on 32-bit targets like wasm32.
+        u32::try_from(leaves)
+            .ok()
+            .and_then(|leaves| self.start_idx().checked_add(leaves))
+            .ok_or(RangeProofError::TreeTooLarge)?;
+
+        let (left_siblings, right_siblings) = siblings.split_at(left_siblings);
+        let ns_range = |hash: &NamespacedHash| (hash.min_namespace(), hash.max_namespace());
+
+        let nodes = left_siblings
+            .iter()
+            .map(ns_range)
+            .chain([(leaves_min_ns, leaves_max_ns)])
+            .chain(right_siblings.iter().map(ns_range));
+
+        let mut prev_max_ns = None;
+
+        for (min_ns, max_ns) in nodes {
+            if min_ns > max_ns {
+                return Err(RangeProofError::MalformedTree);
+            }
+            if prev_max_ns.is_some_and(|prev_max_ns| prev_max_ns > min_ns) {
+                return Err(RangeProofError::MalformedProof(
+                    "proof nodes are not ordered by namespace",
+                ));
+            }
+            prev_max_ns = Some(max_ns);
+        }
+
+        Ok(())
     }
 
     /// Returns total amount of leaves in a tree for which proof was constructed.
